@@ -65,6 +65,9 @@ func runKeygen(curve string, n, t int, ks []*big.Int, polys [][]*big.Int, st sch
 		coefs[i] = polys[i][1:]
 	}
 	o := kgOpts{keys: ks, ui: ui, coefs: coefs, seed: fmt.Sprintf("c03-%d", seed)}
+	if curve == "p256" {
+		o.ec = curveByName(curve)
+	}
 	var rc *runCtx
 	if curve == "ed25519" {
 		rc = buildEdDSAKeygen(n, t, o)
@@ -167,7 +170,7 @@ func keygenOracles(r *vc.Run, res *kgResult, curve string, t int, replay string)
 }
 
 func genC03(r *vc.Run) {
-	r.Rule = "full key generation runs (EdDSA and ECDSA with the vendored pre-parameters) with every party's u_i and polynomial coefficients fixed through the readers, so that the Coq closed form predicts every x_j, X_j and the public key exactly; (n,t) in {(2,1),(3,1),(3,2),(4,2),(4,3),(5,2),(5,3),(5,4)}, party-key sets {1..n, random 256-bit, q-1.., >= q}; direct oracles: identical public views, x_i G = X_i, every (t+1)-subset interpolates to one key matching the public key, Paillier modulus consistency; non-trivial = all runs"
+	r.Rule = "full key generation runs (EdDSA, ECDSA on secp256k1 and on NIST P-256, with the vendored pre-parameters) with every party's u_i and polynomial coefficients fixed through the readers, so that the Coq closed form predicts every x_j, X_j and the public key exactly; (n,t) in {(2,1),(3,1),(3,2),(4,2),(4,3),(5,2),(5,3),(5,4)}, party-key sets {1..n, random 256-bit, q-1.., >= q}; direct oracles: identical public views, x_i G = X_i, every (t+1)-subset interpolates to one key matching the public key, Paillier modulus consistency; non-trivial = all runs"
 	g := rng{r}
 	type cfg struct {
 		curve string
@@ -176,10 +179,12 @@ func genC03(r *vc.Run) {
 	}
 	cfgs := []cfg{{"ed25519", 2, 1, "small"}, {"ed25519", 3, 1, "random"}, {"ed25519", 3, 2, "nearq"}, {"ed25519", 4, 2, "aboveq"}, {"ed25519", 5, 2, "small"}, {"ed25519", 5, 3, "random"}, {"ed25519", 5, 4, "small"}, {"ed25519", 4, 3, "random"},
 		{"secp256k1", 2, 1, "small"}, {"secp256k1", 3, 2, "random"}, {"secp256k1", 4, 3, "nearq"},
-		{"ed25519", 3, 1, "congruent"}, {"secp256k1", 3, 1, "congruent"}, {"ed25519", 3, 1, "zero"}}
+		{"ed25519", 3, 1, "congruent"}, {"secp256k1", 3, 1, "congruent"}, {"ed25519", 3, 1, "zero"},
+		// ECDSA key generation on a curve the application brings itself (NIST P-256): the order that reduces shares and ids is that of the run
+		{"p256", 2, 1, "nearq"}, {"p256", 3, 2, "aboveq"}}
 	if r.Thorough() {
 		cfgs = append(cfgs, cfg{"secp256k1", 3, 1, "aboveq"}, cfg{"secp256k1", 4, 2, "random"}, cfg{"secp256k1", 5, 2, "small"}, cfg{"secp256k1", 5, 3, "random"}, cfg{"secp256k1", 5, 4, "nearq"},
-			cfg{"ed25519", 5, 2, "aboveq"}, cfg{"ed25519", 5, 4, "nearq"})
+			cfg{"ed25519", 5, 2, "aboveq"}, cfg{"ed25519", 5, 4, "nearq"}, cfg{"p256", 3, 1, "random"}, cfg{"p256", 4, 2, "small"}, cfg{"p256", 3, 1, "congruent"})
 	}
 	for ci, c := range cfgs {
 		q := curveByName(c.curve).Params().N
